@@ -186,6 +186,47 @@ def run(idx, rep, tier):
     solver_scale_obligations(idx, rep, routine, cond_fns, "scale-homogeneity", "cg")
     # ---- bookkeeping of the instrumented while loop
     bookkeeping(idx, rep)
+    # ---- finite reciprocals: a division guard replaces a zero denominator by a tiny constant; dividing BY the guarded value is fine
+    # (0 / tiny = 0), but forming its RECIPROCAL overflows in single precision when the constant is below the smallest normal float32
+    # (1 / 1e-40 = inf, and 0 * inf = nan: the zero right-hand-side column comes back as nan instead of exactly 0)
+    F32_TINY = 1.1754944e-38
+    n_recip = 0
+    for f in fns:
+        if f.cls is not None:
+            continue
+
+        def literals(e, depth=0):
+            """numeric literals an expression may evaluate to through guards (where / maximum / clip / array wrappers / names)"""
+            if depth > 6 or e is None:
+                return set()
+            if isinstance(e, ast.Constant) and isinstance(e.value, (int, float)) and not isinstance(e.value, bool):
+                return {float(e.value)}
+            if isinstance(e, ast.Name):
+                v = df.resolve_value(f.node, e)
+                if v is not e:
+                    return literals(v, depth + 1)
+                r = idx.resolve_name(f.module, e.id, f)
+                if r is not None and r.kind == "value" and isinstance(getattr(r, "val", None), ast.AST):
+                    return literals(r.val, depth + 1)
+                mv = f.module.values.get(e.id) if hasattr(f.module, "values") else None
+                return literals(mv, depth + 1) if isinstance(mv, ast.AST) else set()
+            if isinstance(e, ast.Call) and df.is_xnp_call(e) in ("where", ):
+                return set().union(*[literals(a_, depth + 1) for a_ in e.args[1:]])
+            if isinstance(e, ast.Call) and df.is_xnp_call(e) in ("maximum", "clip", "array", "cast"):
+                return set().union(*[literals(a_, depth + 1) for a_ in e.args]) if e.args else set()
+            return set()
+        for n in df.body_nodes(f.node):
+            if isinstance(n, ast.BinOp) and isinstance(n.op, ast.Div) and isinstance(n.left, ast.Constant) and isinstance(n.left.value, (int, float)) and n.left.value:
+                lits = {x for x in literals(n.right) if x != 0}
+                if not lits:
+                    continue
+                n_recip += 1
+                tiny = sorted(x for x in lits if abs(x) < F32_TINY)
+                rep.decide(not tiny, "finite-reciprocal", f"{f.short}:reciprocal#{n_recip}", f"`{ast.unparse(n)}`: the denominator may be the guard constant {sorted(lits)}" +
+                           ("" if not tiny else f"; {tiny[0]:g} is below the smallest normal single-precision number, so the reciprocal is inf in float32 and a zero numerator gives nan "
+                            "(a zero right-hand-side column is returned as nan instead of exactly 0)"), detail="" if not tiny else "overflow", locs=[idx.loc(f.module, n)])
+    if not n_recip:
+        rep.note("finite-reciprocal: no reciprocal of a guarded denominator on this tree")
     rep.floor("loop-cap", 1)
     rep.floor("stopping-test", 2)
     rep.floor("scale-homogeneity", 3)
